@@ -322,11 +322,14 @@ def _free_globals(fn):
             not hasattr(builtins, x.id)}
 
 
-def _module_bindings(tree):
-    """Module-level name -> a text that identifies what it is bound to when
-    that is an import (the only bindings two modules can share)."""
+def _module_bindings(tree, modname=None):
+    """Module-level name -> a text that identifies what it is bound to: an
+    import, or (for the module's own classes and functions) the import by
+    which a sibling module gets at it."""
     out = {}
     for st in tree.body:
+        if modname and isinstance(st, (ast.ClassDef, ast.FunctionDef)):
+            out[st.name] = 'from .%s import %s' % (modname, st.name)
         if isinstance(st, ast.Import):
             for a in st.names:
                 out[(a.asname or a.name).split('.')[0]] = 'import ' + (
@@ -336,6 +339,25 @@ def _module_bindings(tree):
                 out[a.asname or a.name] = 'from %s%s import %s' % (
                     '.' * st.level, st.module or '', a.name)
     return out
+
+
+def _binds_otherwise(tree, nm):
+    return any(isinstance(x, ast.Name) and x.id == nm and isinstance(
+        x.ctx, (ast.Store, ast.Del)) for st in tree.body
+        if not isinstance(st, (ast.FunctionDef, ast.ClassDef))
+        for x in ast.walk(st)) or any(
+        isinstance(st, (ast.FunctionDef, ast.ClassDef)) and st.name == nm
+        for st in tree.body)
+
+
+def _after_imports(tree):
+    at = 0
+    for i, st in enumerate(tree.body):
+        if isinstance(st, (ast.Import, ast.ImportFrom)) or (
+                isinstance(st, ast.Expr) and isinstance(
+                    st.value, ast.Constant)):
+            at = i + 1
+    return at
 
 
 def _hoist_tests(tree, name, K):
@@ -379,6 +401,16 @@ def _hoist_tests(tree, name, K):
                     targets=[ast.Name(id=tmp, ctx=ast.Store())],
                     value=the_call(st.test), lineno=st.lineno))
                 st.test = with_temp(st.test, tmp)
+                out.append(st)
+            elif isinstance(st, ast.For) and isinstance(
+                    st.iter, ast.Call) and the_call(st.iter) is st.iter:
+                # the iterable is evaluated once, before the loop
+                K.n += 1
+                tmp = '_x%d_iter' % K.n
+                out.append(ast.Assign(
+                    targets=[ast.Name(id=tmp, ctx=ast.Store())],
+                    value=st.iter, lineno=st.lineno))
+                st.iter = ast.Name(id=tmp, ctx=ast.Load())
                 out.append(st)
             elif isinstance(st, ast.While) and not st.orelse and \
                     the_call(st.test) is not None:
@@ -431,12 +463,214 @@ def _own_receiver(n, parents, cls):
     return c is cls
 
 
+def _is_cm_decorator(d):
+    t = ast.unparse(d)
+    return t in ('contextlib.contextmanager', 'contextmanager')
+
+
+def _cm_inlinable(fn):
+    """A generator context manager with exactly one ``yield`` statement,
+    outside any loop."""
+    decs = fn.decorator_list
+    if not decs or not any(_is_cm_decorator(d) for d in decs):
+        return False
+    for d in decs:
+        if not (_is_cm_decorator(d) or (isinstance(d, ast.Name) and
+                                        d.id == 'staticmethod')):
+            return False
+    ys = [n for n in ast.walk(fn) if isinstance(n, (ast.Yield,
+                                                    ast.YieldFrom))]
+    if len(ys) != 1 or not isinstance(ys[0], ast.Yield):
+        return False
+    ok = []
+
+    def walk(stmts, in_loop):
+        for st in stmts:
+            if isinstance(st, ast.Expr) and st.value is ys[0]:
+                ok.append(not in_loop)
+            for fld in ('body', 'orelse', 'finalbody'):
+                v = getattr(st, fld, None)
+                if isinstance(v, list):
+                    walk(v, in_loop or isinstance(st, (ast.For, ast.While)))
+            if isinstance(st, ast.Try):
+                for h in st.handlers:
+                    walk(h.body, in_loop)
+    walk(fn.body, False)
+    if ok != [True]:
+        return False
+    for n in ast.walk(fn):
+        if isinstance(n, (ast.Lambda, ast.Global, ast.Nonlocal,
+                          ast.NamedExpr)):
+            return False
+        if isinstance(n, (ast.FunctionDef, ast.ClassDef)) and n is not fn:
+            return False
+        if isinstance(n, ast.Return) and n.value is not None:
+            return False
+    a = fn.args
+    if a.vararg or a.kwarg or a.kwonlyargs or a.posonlyargs:
+        return False
+    return True
+
+
+def _split_with(tree, name):
+    """``with a, h(), b: B`` -> nested single-item withs when an item is a
+    call of ``name``."""
+    class T(ast.NodeTransformer):
+        def visit_With(self, n):
+            self.generic_visit(n)
+
+            def is_site(it):
+                c = it.context_expr
+                if not isinstance(c, ast.Call):
+                    return False
+                f = c.func
+                nm = f.attr if isinstance(f, ast.Attribute) else (
+                    f.id if isinstance(f, ast.Name) else None)
+                return nm == name
+            if len(n.items) > 1 and any(is_site(it) for it in n.items):
+                body = n.body
+                for it in reversed(n.items[1:]):
+                    body = [ast.With(items=[it], body=body,
+                                     lineno=n.lineno)]
+                return ast.copy_location(ast.With(
+                    items=[n.items[0]], body=body), n)
+            return n
+    T().visit(tree)
+    ast.fix_missing_locations(tree)
+
+
+def _inline_context_managers(modules, canon, renamed_new_names, K, report):
+    """``with self._cm(a) as v: BODY`` where ``_cm`` is a new generator
+    context manager: the manager's body with its ``yield x`` replaced by
+    ``v = x; BODY`` (what the ``with`` protocol does: an exception of BODY
+    is raised at the yield, a normal end or a return resumes after it)."""
+    progress = False
+    cands = []
+    for mod, tree in modules.items():
+        for st in tree.body:
+            if isinstance(st, ast.ClassDef):
+                for m in st.body:
+                    if isinstance(m, ast.FunctionDef):
+                        cands.append((mod, st, m, st.name + '.' + m.name))
+            elif isinstance(st, ast.FunctionDef):
+                cands.append((mod, None, st, st.name))
+    count = {}
+    for _m, _c, fn, q in cands:
+        count[fn.name] = count.get(fn.name, 0) + 1
+    for mod, cls, fn, q in cands:
+        if q in canon or q in renamed_new_names or count[fn.name] != 1 or \
+                not _cm_inlinable(fn):
+            continue
+        is_static = cls is None or any(
+            isinstance(d, ast.Name) and d.id == 'staticmethod'
+            for d in fn.decorator_list)
+        for tree in modules.values():
+            _split_with(tree, fn.name)
+        sites, other = [], False
+        for m2, tree in modules.items():
+            parents = {}
+            for n in ast.walk(tree):
+                for c in ast.iter_child_nodes(n):
+                    parents[id(c)] = n
+            for n in ast.walk(tree):
+                if isinstance(n, ast.Attribute) and n.attr == fn.name or \
+                        isinstance(n, ast.Name) and n.id == fn.name:
+                    p = parents.get(id(n))
+                    w = parents.get(id(parents.get(id(p)))) if p else None
+                    it = parents.get(id(p)) if p else None
+                    if isinstance(p, ast.Call) and p.func is n and \
+                            isinstance(it, ast.withitem) and \
+                            it.context_expr is p and isinstance(
+                                w, ast.With) and len(w.items) == 1:
+                        sites.append((tree, parents, p, it, w))
+                    elif n is not fn:
+                        other = True
+        if other or not sites:
+            continue
+        free = _free_globals(fn)
+        home = _module_bindings(modules[mod], mod)
+        done = failed = 0
+        for tree, parents, call, it, w in sites:
+            if tree is not modules[mod]:
+                there = _module_bindings(tree)
+                if any(home.get(nm) is None or home.get(nm) != there.get(nm)
+                       for nm in free):
+                    failed += 1
+                    continue
+            recv = call.func.value if isinstance(
+                call.func, ast.Attribute) else None
+            if (cls is not None) != (recv is not None) or (
+                    is_static and recv is not None and
+                    not isinstance(recv, ast.Name)):
+                failed += 1
+                continue
+            built = _build(fn, is_static, call, recv, None, K)
+            if built is None:
+                failed += 1
+                continue
+            pre, rn = built
+            body = [rn(b) for b in _body(fn)]
+            target = it.optional_vars
+
+            class Y(ast.NodeTransformer):
+                n = 0
+
+                def visit_Expr(self, st):
+                    if isinstance(st.value, ast.Yield):
+                        self.n += 1
+                        out = []
+                        if target is not None:
+                            out.append(ast.Assign(
+                                targets=[target],
+                                value=st.value.value or ast.Constant(
+                                    value=None), lineno=w.lineno))
+                        elif st.value.value is not None and not isinstance(
+                                st.value.value, (ast.Name, ast.Constant)):
+                            out.append(ast.Expr(value=st.value.value))
+                        return out + w.body
+                    return st
+            y = Y()
+            new = []
+            for b in body:
+                r = y.visit(b)
+                new.extend(r if isinstance(r, list) else [r])
+            if y.n != 1:
+                failed += 1
+                continue
+            holder = parents.get(id(w))
+            placed = False
+            for fld, val in ast.iter_fields(holder):
+                if isinstance(val, list) and any(x is w for x in val):
+                    i0 = [i for i, x in enumerate(val) if x is w][0]
+                    val[i0:i0 + 1] = pre + new
+                    placed = True
+            if placed:
+                done += 1
+                progress = True
+            else:
+                failed += 1
+        if done and not failed:
+            (cls.body if cls is not None else modules[mod].body).remove(fn)
+        if done:
+            report.append((q, done, bool(failed)))
+    for tree in modules.values():
+        ast.fix_missing_locations(tree)
+    return progress
+
+
 def deextract(modules, canon, renamed_new_names, api_classes=()):
     """modules: {name: ast.Module}; canon: canonical qualnames; returns the
     list of (helper qualname, number of sites inlined, kept as function)."""
     K = _Ctx()
     report = []
     for _ in range(3):                      # helpers of helpers
+        cm_progress = _inline_context_managers(
+            modules, canon, renamed_new_names, K, report)
+        cm_progress = _inline_expression_helpers(
+            modules, canon, renamed_new_names, api_classes,
+            report) or cm_progress
+        cm_progress = _inline_class_context_managers(
+            modules, canon, K, report) or cm_progress
         cands = []
         for mod, tree in modules.items():
             for st in tree.body:
@@ -501,16 +735,24 @@ def deextract(modules, canon, renamed_new_names, api_classes=()):
             done = 0
             failed = 0
             free = _free_globals(fn)
-            home = _module_bindings(modules[mod])
+            home = _module_bindings(modules[mod], mod)
             for tree, parents, call in sites:
                 if tree is not modules[mod]:
                     # another module: every global the helper reads must be
                     # the same thing there (same import statement)
                     there = _module_bindings(tree)
-                    if any(home.get(nm) is None or
-                           home.get(nm) != there.get(nm) for nm in free):
+                    if any(home.get(nm) is None or (
+                            there.get(nm) is not None and
+                            home.get(nm) != there.get(nm)) or (
+                            there.get(nm) is None and
+                            _binds_otherwise(tree, nm)) for nm in free):
                         failed += 1
                         continue
+                    for nm in free:
+                        if there.get(nm) is None:
+                            # the name is importable there the same way
+                            tree.body.insert(_after_imports(tree), ast.parse(
+                                home[nm]).body[0])
                 stmt = parents.get(id(call))
                 ok = isinstance(stmt, (ast.Expr, ast.Return)) and \
                     stmt.value is call or (
@@ -555,6 +797,372 @@ def deextract(modules, canon, renamed_new_names, api_classes=()):
                 report.append((q, done, bool(failed)))
         for tree in modules.values():
             ast.fix_missing_locations(tree)
-        if not progress:
+        if not progress and not cm_progress:
             break
     return report
+
+
+# ---------------------------------------------------------------------------
+# expression helpers and class-based context managers
+def _expr_helper(fn):
+    """``def h(self, a, b): return EXPR`` (docstring aside)."""
+    body = _body(fn)
+    if len(body) != 1 or not isinstance(body[0], ast.Return) or \
+            body[0].value is None:
+        return None
+    for d in fn.decorator_list:
+        if not (isinstance(d, ast.Name) and d.id == 'staticmethod'):
+            return None
+    a = fn.args
+    if a.vararg or a.kwarg or a.kwonlyargs or a.posonlyargs or a.defaults:
+        return None
+    for n in ast.walk(body[0].value):
+        if isinstance(n, (ast.Lambda, ast.NamedExpr, ast.Yield,
+                          ast.YieldFrom, ast.Await)):
+            return None
+    return body[0].value
+
+
+def _pure_arg(e):
+    while isinstance(e, ast.Attribute):
+        e = e.value
+    return isinstance(e, (ast.Name, ast.Constant))
+
+
+def _inline_expression_helpers(modules, canon, renamed_new_names,
+                               api_classes, report):
+    """A new helper whose body is one ``return EXPR`` is substituted at call
+    sites in any expression position when the receiver and the arguments are
+    names, attribute chains or constants (evaluating them where the
+    parameters stood changes nothing)."""
+    progress = False
+    cands = []
+    for mod, tree in modules.items():
+        for st in tree.body:
+            if isinstance(st, ast.ClassDef):
+                for m in st.body:
+                    if isinstance(m, ast.FunctionDef):
+                        cands.append((mod, st, m, st.name + '.' + m.name))
+            elif isinstance(st, ast.FunctionDef):
+                cands.append((mod, None, st, st.name))
+    count = {}
+    for _m, _c, fn, q in cands:
+        count[fn.name] = count.get(fn.name, 0) + 1
+    for mod, cls, fn, q in cands:
+        dunder = fn.name.startswith('__') and fn.name.endswith('__')
+        internal = _is_private(fn.name) or (
+            cls is not None and cls.name not in api_classes and not dunder)
+        if q in canon or q in renamed_new_names or not internal or \
+                count[fn.name] != 1:
+            continue
+        expr = _expr_helper(fn)
+        if expr is None:
+            continue
+        is_static = cls is None or any(
+            isinstance(d, ast.Name) and d.id == 'staticmethod'
+            for d in fn.decorator_list)
+        params = [a.arg for a in fn.args.args]
+        self_name = None if is_static else (params[0] if params else None)
+        pnames = params if is_static else params[1:]
+        # the helper calls itself?
+        if any(isinstance(n, ast.Attribute) and n.attr == fn.name or
+               isinstance(n, ast.Name) and n.id == fn.name
+               for n in ast.walk(expr)):
+            continue
+        free = _free_globals(fn)
+        home = _module_bindings(modules[mod], mod)
+        done = failed = 0
+        for m2, tree in modules.items():
+            parents = {}
+            for n in ast.walk(tree):
+                for c in ast.iter_child_nodes(n):
+                    parents[id(c)] = n
+            for n in list(ast.walk(tree)):
+                if not (isinstance(n, ast.Attribute) and n.attr == fn.name
+                        or isinstance(n, ast.Name) and n.id == fn.name):
+                    continue
+                if n is fn:
+                    continue
+                call = parents.get(id(n))
+                if not (isinstance(call, ast.Call) and call.func is n):
+                    failed += 1
+                    continue
+                # statement-level sites are left to the statement inliner
+                recv = n.value if isinstance(n, ast.Attribute) else None
+                if (cls is not None) != (recv is not None) or (
+                        recv is not None and not _pure_arg(recv)) or \
+                        call.keywords or len(call.args) != len(pnames) or \
+                        any(isinstance(a, ast.Starred) or not _pure_arg(a)
+                            for a in call.args):
+                    failed += 1
+                    continue
+                if tree is not modules[mod]:
+                    there = _module_bindings(tree)
+                    if any(home.get(nm) is None or (
+                            there.get(nm) is not None and
+                            home.get(nm) != there.get(nm)) or (
+                            there.get(nm) is None and
+                            _binds_otherwise(tree, nm)) for nm in free):
+                        failed += 1
+                        continue
+                    for nm in free:
+                        if there.get(nm) is None:
+                            tree.body.insert(_after_imports(tree), ast.parse(
+                                home[nm]).body[0])
+                sub = dict(zip(pnames, call.args))
+                if self_name is not None:
+                    if is_static:
+                        pass
+                    sub[self_name] = recv
+
+                class S(ast.NodeTransformer):
+                    def visit_Name(self_, x):
+                        if isinstance(x.ctx, ast.Load) and x.id in sub:
+                            return copy.deepcopy(sub[x.id])
+                        return x
+                new = S().visit(copy.deepcopy(expr))
+                holder = parents.get(id(call))
+                placed = False
+                for fld, val in ast.iter_fields(holder):
+                    if val is call:
+                        setattr(holder, fld, new)
+                        placed = True
+                    elif isinstance(val, list):
+                        for i, x in enumerate(val):
+                            if x is call:
+                                val[i] = new
+                                placed = True
+                if placed:
+                    done += 1
+                    progress = True
+                else:
+                    failed += 1
+        if done and not failed:
+            (cls.body if cls is not None else modules[mod].body).remove(fn)
+        if done:
+            report.append((q, done, bool(failed)))
+    for tree in modules.values():
+        ast.fix_missing_locations(tree)
+    return progress
+
+
+def _class_cm(cls):
+    """(params, attr->param, enter statements, enter value, exception class
+    node, exit statements) of a context-manager class of the shape
+
+        class C:
+            def __init__(self, a, b): self.x = a; self.y = b
+            def __enter__(self): [stmts]; return EXPR
+            def __exit__(self, t, v, tb):
+                if t is not None and issubclass(t, E): stmts
+                return False
+
+    or None."""
+    ms = {m.name: m for m in cls.body if isinstance(m, ast.FunctionDef)}
+    others = [b for b in cls.body if not isinstance(b, ast.FunctionDef) and
+              not (isinstance(b, ast.Expr) and isinstance(
+                  b.value, ast.Constant))]
+    if others or set(ms) != {'__init__', '__enter__', '__exit__'} or \
+            cls.bases or cls.decorator_list:
+        return None
+    init, ent, ext = ms['__init__'], ms['__enter__'], ms['__exit__']
+    for m in (init, ent, ext):
+        a = m.args
+        if m.decorator_list or a.vararg or a.kwarg or a.kwonlyargs or \
+                a.defaults or not a.args:
+            return None
+    s0 = init.args.args[0].arg
+    params = [a.arg for a in init.args.args[1:]]
+    amap = {}
+    for st in _body(init):
+        if not (isinstance(st, ast.Assign) and len(st.targets) == 1 and
+                isinstance(st.targets[0], ast.Attribute) and isinstance(
+                    st.targets[0].value, ast.Name) and
+                st.targets[0].value.id == s0 and isinstance(
+                    st.value, ast.Name) and st.value.id in params):
+            return None
+        amap[st.targets[0].attr] = st.value.id
+    eb = _body(ent)
+    evalue = None
+    if eb and isinstance(eb[-1], ast.Return):
+        evalue = eb[-1].value
+        eb = eb[:-1]
+    if any(isinstance(x, ast.Return) for st in eb for x in ast.walk(st)):
+        return None
+    if len(ext.args.args) != 4:
+        return None
+    t_, v_ = ext.args.args[1].arg, ext.args.args[2].arg
+    xb = _body(ext)
+    if xb and isinstance(xb[-1], ast.Return):
+        r = xb[-1].value
+        if not (r is None or (isinstance(r, ast.Constant) and
+                              r.value in (False, None))):
+            return None
+        xb = xb[:-1]
+    if len(xb) != 1 or not isinstance(xb[0], ast.If) or xb[0].orelse:
+        return None
+    test = xb[0].test
+    parts = test.values if isinstance(test, ast.BoolOp) and isinstance(
+        test.op, ast.And) else [test]
+    exc = None
+    saw_not_none = False
+    for p_ in parts:
+        if isinstance(p_, ast.Compare) and len(p_.ops) == 1 and isinstance(
+                p_.ops[0], ast.IsNot) and isinstance(
+                    p_.left, ast.Name) and p_.left.id in (t_, v_) and \
+                isinstance(p_.comparators[0], ast.Constant) and \
+                p_.comparators[0].value is None:
+            saw_not_none = True
+        elif isinstance(p_, ast.Call) and isinstance(
+                p_.func, ast.Name) and p_.func.id in (
+                    'issubclass', 'isinstance') and len(p_.args) == 2 and \
+                isinstance(p_.args[0], ast.Name) and \
+                p_.args[0].id in (t_, v_):
+            exc = p_.args[1]
+        else:
+            return None
+    if not saw_not_none and exc is None:
+        return None
+    if exc is None:
+        exc = ast.Name(id='BaseException', ctx=ast.Load())
+    used = {x.id for st in xb[0].body for x in ast.walk(st)
+            if isinstance(x, ast.Name)}
+    if used & {t_, v_, ext.args.args[3].arg}:
+        return None
+    return params, amap, (ent.args.args[0].arg, eb, evalue), exc, (
+        ext.args.args[0].arg, xb[0].body)
+
+
+def _inline_class_context_managers(modules, canon, K, report):
+    """``with C(a, b) as v: BODY`` for a new context-manager class C of the
+    shape above is ``<enter>; v = EXPR; try: BODY except E: <exit>; raise``
+    (``__exit__`` returning False re-raises; on a normal end it does
+    nothing)."""
+    progress = False
+    canon_classes = {q.split('.')[0] for q in canon if '.' in q}
+    for mod, tree in list(modules.items()):
+        for cdef in list(tree.body):
+            if not isinstance(cdef, ast.ClassDef) or \
+                    cdef.name in canon_classes:
+                continue
+            shape = _class_cm(cdef)
+            if shape is None:
+                continue
+            params, amap, (es, ebody, evalue), exc, (xs, xbody) = shape
+            for t2 in modules.values():
+                _split_with(t2, cdef.name)
+            sites, other = [], False
+            for m2, t2 in modules.items():
+                parents = {}
+                for n in ast.walk(t2):
+                    for c in ast.iter_child_nodes(n):
+                        parents[id(c)] = n
+                for n in ast.walk(t2):
+                    if isinstance(n, ast.Name) and n.id == cdef.name and \
+                            isinstance(n.ctx, ast.Load):
+                        p = parents.get(id(n))
+                        it = parents.get(id(p)) if p else None
+                        w = parents.get(id(it)) if it else None
+                        if isinstance(p, ast.Call) and p.func is n and \
+                                isinstance(it, ast.withitem) and \
+                                it.context_expr is p and isinstance(
+                                    w, ast.With) and len(w.items) == 1:
+                            sites.append((t2, parents, p, it, w))
+                        else:
+                            other = True
+            if other or not sites:
+                continue
+            home = _module_bindings(tree, mod)
+            free = set()
+            for m in cdef.body:
+                if isinstance(m, ast.FunctionDef):
+                    free |= _free_globals(m)
+            done = failed = 0
+            for t2, parents, call, it, w in sites:
+                if t2 is not tree:
+                    there = _module_bindings(t2)
+                    if any(home.get(nm) is None or
+                           home.get(nm) != there.get(nm) for nm in free):
+                        failed += 1
+                        continue
+                if call.keywords or len(call.args) != len(params) or any(
+                        isinstance(a, ast.Starred) for a in call.args):
+                    failed += 1
+                    continue
+                K.n += 1
+                pre = '_x%d_' % K.n
+                stmts = [ast.Assign(
+                    targets=[ast.Name(id=pre + p_, ctx=ast.Store())],
+                    value=a, lineno=w.lineno)
+                    for p_, a in zip(params, call.args)]
+
+                def conv(node, sname):
+                    node = copy.deepcopy(node)
+
+                    class A(ast.NodeTransformer):
+                        bad = False
+
+                        def visit_Attribute(self_, x):
+                            self_.generic_visit(x)
+                            if isinstance(x.value, ast.Name) and \
+                                    x.value.id == sname:
+                                if x.attr in amap and isinstance(
+                                        x.ctx, ast.Load):
+                                    return ast.Name(id=pre + amap[x.attr],
+                                                    ctx=ast.Load())
+                                self_.bad = True
+                            return x
+
+                        def visit_Name(self_, x):
+                            if x.id == sname:
+                                self_.bad = True
+                            return x
+                    a_ = A()
+                    out = a_.visit(node)
+                    # a bare use of self (after attribute replacement)
+                    bad = any(isinstance(x, ast.Name) and x.id == sname
+                              for x in ast.walk(out))
+                    return None if bad else out
+                enter = [conv(s_, es) for s_ in ebody]
+                need_value = it.optional_vars is not None
+                ev = conv(evalue, es) if (evalue is not None and
+                                          need_value) else None
+                exit_ = [conv(s_, xs) for s_ in xbody]
+                if any(s_ is None for s_ in enter + exit_) or (
+                        evalue is not None and need_value and ev is None):
+                    failed += 1
+                    continue
+                new = stmts + enter
+                if it.optional_vars is not None:
+                    new.append(ast.Assign(
+                        targets=[it.optional_vars],
+                        value=ev if ev is not None else ast.Constant(
+                            value=None), lineno=w.lineno))
+                elif ev is not None and not isinstance(
+                        ev, (ast.Name, ast.Constant)):
+                    new.append(ast.Expr(value=ev))
+                new.append(ast.Try(
+                    body=w.body,
+                    handlers=[ast.ExceptHandler(
+                        type=copy.deepcopy(exc), name=None,
+                        body=exit_ + [ast.Raise(exc=None, cause=None)])],
+                    orelse=[], finalbody=[], lineno=w.lineno))
+                holder = parents.get(id(w))
+                placed = False
+                for fld, val in ast.iter_fields(holder):
+                    if isinstance(val, list) and any(x is w for x in val):
+                        i0 = [i for i, x in enumerate(val) if x is w][0]
+                        val[i0:i0 + 1] = new
+                        placed = True
+                if placed:
+                    done += 1
+                    progress = True
+                else:
+                    failed += 1
+            if done and not failed:
+                tree.body.remove(cdef)
+            if done:
+                report.append((cdef.name, done, bool(failed)))
+    for t2 in modules.values():
+        ast.fix_missing_locations(t2)
+    return progress
